@@ -1,7 +1,262 @@
 /-
 C14 — Events resolve their keys and play as correctly timed server commands.
+Property theorems (helper lemmas for the Ppar merge are in `Ppar.lean`).
 -/
-import Sc3Verif.C14.Model
+import Sc3Verif.C14.Merge
 namespace Sc3Verif.C14
+
+/-! ## Key chains: an explicitly given key wins -/
+
+theorem explicit_freq_wins (e : Ev) (q : Rat) (h : e.get? "freq" = some (.num q)) :
+    e.freq = some (.q q) := by
+  unfold Ev.freq; simp [h, V.num?]
+
+theorem explicit_midinote_wins (e : Ev) (q : Rat) (h : e.get? "midinote" = some (.num q)) :
+    e.midinote = some (.q q) := by
+  unfold Ev.midinote; simp [h, V.num?]
+
+theorem explicit_amp_wins (e : Ev) (q : Rat) (h : e.get? "amp" = some (.num q)) :
+    e.amp = some (.q q) := by
+  unfold Ev.amp; simp [h, V.num?]
+
+theorem explicit_delta_wins (e : Ev) (q : Rat) (h : e.get? "delta" = some (.num q)) :
+    e.delta = some q := by
+  unfold Ev.delta; simp [h, V.num?]
+
+theorem explicit_sustain_wins (e : Ev) (q : Rat) (h : e.get? "sustain" = some (.num q)) :
+    e.sustain = some q := by
+  unfold Ev.sustain; simp [h, V.num?]
+
+/-- `amp`: `db` takes precedence over `velocity`. -/
+theorem amp_db_over_velocity (e : Ev) (d : Rat) (ha : e.get? "amp" = none)
+    (hd : e.get? "db" = some (.num d)) : e.amp = some (.dbamp (.q d)) := by
+  unfold Ev.amp; simp [ha, hd, V.num?]
+
+theorem amp_from_velocity (e : Ev) (v : Rat) (ha : e.get? "amp" = none) (hd : e.get? "db" = none)
+    (hv : e.get? "velocity" = some (.num v)) : e.amp = some (.q (v / 127)) := by
+  unfold Ev.amp; simp [ha, hd, hv, V.num?]
+
+/-- `midinote`: `note` takes precedence over `degree`, which takes precedence over `freq`. -/
+theorem midinote_note_over_degree (e : Ev) (hm : e.get? "midinote" = none) (hn : e.has "note" = true) :
+    e.midinote = e.midinoteFromNote.map Sym.q := by
+  unfold Ev.midinote; simp [hm, hn]
+
+theorem midinote_degree_over_freq (e : Ev) (hm : e.get? "midinote" = none) (hn : e.has "note" = false)
+    (hd : e.has "degree" = true) : e.midinote = e.midinoteFromDegree.map Sym.q := by
+  unfold Ev.midinote; simp [hm, hn, hd]
+
+/-- `freq`: `midinote`/`note` (with `ctranspose`) over `degree` over the default. -/
+theorem freq_from_degree (e : Ev) (hf : e.get? "freq" = none) (hm : e.has "midinote" = false)
+    (hn : e.has "note" = false) (hd : e.has "degree" = true) :
+    e.freq = e.midinoteFromDegree.map fun m => .midicps (.q m) := by
+  unfold Ev.freq; simp [hf, hm, hn, hd]
+
+theorem freq_default (e : Ev) (hf : e.get? "freq" = none) (hm : e.has "midinote" = false)
+    (hn : e.has "note" = false) (hd : e.has "degree" = false) :
+    e.freq = some (.midicps (.q 60)) := by
+  unfold Ev.freq; simp [hf, hm, hn, hd]
+
+/-- The degree chain over a 12-ET scale, spelled out:
+    `midinote = (key(degree + mtranspose) + gtranspose + root) / 12 * 12 + (octave - 5) * 12 + 60`. -/
+theorem chain_degree_to_midinote (e : Ev) (scale : List Int) (deg mtr gtr root oct key : Rat)
+    (hs : e.scaleOf = some scale) (h1 : e.numD "degree" 0 = some deg) (h2 : e.numD "mtranspose" 0 = some mtr)
+    (h3 : e.numD "gtranspose" 0 = some gtr) (h4 : e.numD "root" 0 = some root)
+    (h5 : e.numD "octave" 5 = some oct) (hk : degreeToKey scale (deg + mtr) = some key) :
+    e.midinoteFromDegree = some ((key + gtr + root) / 12 * 12 + (oct - 5) * 12 + 60) := by
+  unfold Ev.midinoteFromDegree
+  simp only [hs, h1, h2, h3, h4, h5, hk, Option.bind_eq_bind, Option.bind_some]
+  congr 1
+  have : ((key + gtr + root) / 12 + oct - 5) * 12 = (key + gtr + root) / 12 * 12 + (oct - 5) * 12 := by
+    rw [Rat.sub_eq_add_neg, Rat.add_mul, Rat.add_mul, Rat.sub_eq_add_neg, Rat.add_mul, Rat.add_assoc]
+  rw [this]
+
+/-- `freq = midicps(midinote)` on the degree chain, then `freq * harmonic + detune`. -/
+theorem chain_degree_to_freq (e : Ev) (m h d : Rat) (hf : e.get? "freq" = none) (hm : e.has "midinote" = false)
+    (hn : e.has "note" = false) (hd : e.has "degree" = true) (hmid : e.midinoteFromDegree = some m)
+    (hh : e.numD "harmonic" 1 = some h) (hdet : e.numD "detune" 0 = some d) :
+    e.detunedFreq = some (Sym.mkAdd (Sym.mkMul (.midicps (.q m)) (.q h)) (.q d)) := by
+  unfold Ev.detunedFreq
+  rw [freq_from_degree e hf hm hn hd, hmid]
+  simp [hh, hdet]
+
+/-! ## Playing one note event -/
+
+/-- Names in a parameter list `[name, value, name, value, …]`. -/
+def paramNames : List Arg → List String
+  | .s n :: _ :: r => n :: paramNames r
+  | _ => []
+
+/-- The parameters sent are exactly the instrument's controls that the event defines (plus `freq`,
+    which `play` always defines), in the order of the description, each once. -/
+theorem msg_params_names (d : Desc) (e : Ev) (fq : Sym) (ps : List Arg)
+    (h : msgParamsDesc d e fq = some ps) :
+    paramNames ps = d.paramControls.filter (fun nm => nm == "freq" || e.has nm) := by
+  unfold msgParamsDesc at h
+  generalize d.paramControls = names at h
+  induction names generalizing ps with
+  | nil => simp [paramsOf] at h; subst h; rfl
+  | cons nm rest ih =>
+    rw [paramsOf] at h
+    cases hr : paramsOf e fq rest with
+    | none => simp [hr] at h
+    | some restps =>
+      rw [hr] at h
+      have ihr := ih restps hr
+      by_cases hf : (nm == "freq") = true
+      · simp only [hf, if_true, Option.some.injEq] at h
+        subst h; simp [paramNames, ihr, hf]
+      · by_cases hh : e.has nm = true
+        · simp only [hf, hh, if_true] at h
+          cases ha : e.argOf nm with
+          | none => simp [ha] at h
+          | some a =>
+            simp only [ha, Bool.false_eq_true, if_false, Option.some.injEq] at h
+            subst h; simp [paramNames, ihr, hh]
+        · simp only [hf, hh] at h
+          simp only [Bool.false_eq_true, if_false, Option.some.injEq] at h
+          subst h; simp [ihr, hf, hh]
+
+/-- MAIN (one event): playing a note event sends exactly one `/s_new name id action group params…`
+    at logical time + latency with a fresh node id, followed — iff a gate-off is due — by exactly one
+    `/n_set id gate 0` later by the event's sustain. -/
+theorem note_play_bundles (w : World) (t : Rat) (e : Ev) (inst : String) (hasGate : Bool)
+    (params : List Arg) (action group : Rat) (hp : notePrep w e = some (inst, hasGate, params, action, group)) :
+    playNote w t e =
+      let sNew : Msg := ⟨t + w.latency, "/s_new",
+        [.s inst, .n (.q w.nextId), .n (.q action), .n (.q group)] ++ params⟩
+      let w' := { w with nextId := w.nextId + 1 }
+      if e.sendGate hasGate then
+        match e.sustain with
+        | some sus =>
+          ([sNew, ⟨t + w.latency + sus, "/n_set", [.n (.q w.nextId), .s "gate", .n (.q 0)]⟩], w', false)
+        | none => ([sNew], w', true)
+      else ([sNew], w', false) := by
+  simp only [playNote, hp]
+  split
+  · cases e.sustain <;> rfl
+  · rfl
+
+/-- Nothing is sent when the event cannot be prepared (a key of the wrong type): `play` raises first. -/
+theorem note_play_raises_sends_nothing (w : World) (t : Rat) (e : Ev) (hp : notePrep w e = none) :
+    playNote w t e = ([], w, true) := by
+  simp only [playNote, hp]
+
+/-! ## The event stream player -/
+
+/-- A rest sends nothing; the player just waits its delta. -/
+theorem rest_sends_nothing (w : World) (t d : Rat) (e : Ev) (es : List Ev) (hr : e.isRest = true)
+    (hd : e.delta = some d) : playAll w t (e :: es) = playAll w (t + d) es := by
+  simp [playAll, hr, hd]
+
+/-- Playing a timetable: each non-rest event at its time. -/
+def playSched (w : World) : List (Rat × Ev) → List Msg × World × Bool
+  | [] => ([], w, false)
+  | (t, e) :: r =>
+    if e.isRest then playSched w r
+    else
+      match playNote w t e with
+      | (m1, w1, true) => (m1, w1, true)
+      | (m1, w1, false) =>
+        let (ms, w', died) := playSched w1 r
+        (m1 ++ ms, w', died)
+
+/-- The player sends exactly what playing its timetable sends. -/
+theorem player_plays_timetable (w : World) (t : Rat) (es : List Ev) :
+    ((playAll w t es).1, (playAll w t es).2.1, (playAll w t es).2.2.2) = playSched w (sched t es) := by
+  induction es generalizing w t with
+  | nil => simp [playAll, sched, playSched]
+  | cons e es ih =>
+    by_cases hr : e.isRest = true
+    · cases hd : e.delta with
+      | none => simp [playAll, sched, playSched, hr, hd]
+      | some d => simp only [playAll, sched, playSched, hr, hd, if_true]; exact ih w (t + d)
+    · simp only [playAll, sched, playSched, hr]
+      rcases hn : playNote w t e with ⟨m1, w1, raised⟩
+      cases raised with
+      | true => simp
+      | false =>
+        cases hd : e.delta with
+        | none => simp [playSched]
+        | some d =>
+          have := ih w1 (t + d)
+          simp only [Bool.false_eq_true, if_false]
+          rw [← this]
+
+/-- MAIN (timing): event `k` of a player is played at the start time plus the sum of the preceding
+    deltas. -/
+theorem player_time_prefix_sums (t : Rat) (es : List Ev) (k : Nat) (e : Ev) (ds : List Rat)
+    (hk : es[k]? = some e) (hds : (es.take k).mapM Ev.delta = some ds) :
+    (sched t es)[k]? = some (t + ds.sum, e) := by
+  induction es generalizing t k ds with
+  | nil => simp at hk
+  | cons x xs ih =>
+    cases k with
+    | zero =>
+      simp at hk hds; subst hk hds
+      simp [sched, Rat.add_zero]
+    | succ k =>
+      simp only [List.getElem?_cons_succ] at hk
+      simp only [List.take_succ_cons, List.mapM_cons, Option.bind_eq_bind] at hds
+      cases hx : x.delta with
+      | none => simp [hx] at hds
+      | some d =>
+        simp only [hx, Option.bind_some] at hds
+        cases hrest : (xs.take k).mapM Ev.delta with
+        | none => simp [hrest] at hds
+        | some ds' =>
+          simp only [hrest, Option.bind_some, Option.pure_def, Option.some.injEq] at hds
+          subst hds
+          simp only [sched, hx, List.getElem?_cons_succ]
+          rw [ih (t + d) k ds' hk hrest]
+          simp [Rat.add_assoc]
+
+/-! ## Parallel and duration-limiting patterns -/
+
+/-- MAIN (Ppar): whatever the other children do, the events of child `i` appear in the merged
+    stream at the start times of the child's own timetable (prefix sums of its own deltas, by
+    `player_time_prefix_sums`), in the child's order. The merged deltas therefore telescope: the
+    start time of a merged event is the sum of the merged deltas before it (`absT`). -/
+theorem ppar_preserves_child_timelines (children : List (List Ev))
+    (hgood : ∀ l ∈ children, ∀ e ∈ l, ∃ d, e.delta = some d ∧ 0 ≤ d) (i : Nat) (l : List Ev)
+    (hi : children[i]? = some l) :
+    (absT 0 (pparMerge children)).filterMap (pick i) = sched 0 l :=
+  ppar_child_timeline children hgood i l hi
+
+/-- MAIN (Pdur): the deltas Pdur lets through sum to the requested duration when the source is long
+    enough (within the tolerance), else to the source's own total. -/
+theorem pdur_total (d tol : Rat) (es : List Ev) (ds : List Rat) (h : es.mapM Ev.delta = some ds) :
+    ∃ ds', (pdurL d tol 0 es).mapM Ev.delta = some ds' ∧
+      ds'.sum = if pdurReaches d tol 0 es then d else ds.sum := by
+  obtain ⟨ds', h1, h2⟩ := pdur_sum d tol es 0 ds h
+  refine ⟨ds', h1, ?_⟩
+  rw [h2]; split
+  · simp [Rat.sub_eq_add_neg, Rat.add_zero]
+  · rfl
+
+/-- Pdur passes a prefix of its source unchanged; only the delta of the last event is replaced. -/
+theorem pdur_passes_prefix (d tol : Rat) (es : List Ev) (h : ∀ e ∈ es, e.delta ≠ none) :
+    (pdurReaches d tol 0 es = false ∧ pdurL d tol 0 es = es) ∨
+    (∃ k e x, es[k]? = some e ∧ pdurL d tol 0 es = es.take k ++ [e.set "delta" (.num x)]) :=
+  pdur_prefix d tol es 0 h
+
+/-! ## Non-vacuity -/
+
+def exDesc : Desc := { name := "ins", controls := ["freq", "amp", "gate", "foo", "pan"] }
+def exWorld : World := { lib := [exDesc], latency := 1 / 8 }
+def exEvent : Ev :=
+  [("degree", .num 2), ("octave", .num 4), ("amp", .num (1 / 2)), ("instrument", .str "ins"),
+   ("foo", .num 7), ("dur", .num 2), ("db", .num (-6))]
+
+example : playNote exWorld (1 / 4) exEvent =
+    ([⟨3 / 8, "/s_new", [.s "ins", .n (.q 1000), .n (.q 0), .n (.q 1), .s "freq", .n (.add (.mul (.midicps (.q 52)) (.q 1)) (.q 0)),
+        .s "amp", .n (.q (1 / 2)), .s "foo", .n (.q 7)]⟩,
+      ⟨79 / 40, "/n_set", [.n (.q 1000), .s "gate", .n (.q 0)]⟩],
+     { exWorld with nextId := 1001 }, false) := by decide +kernel
+
+example : GoodRem [[exEvent, exEvent], [exEvent]] := by
+  intro l hl e he
+  simp at hl
+  rcases hl with rfl | rfl <;> simp at he <;> (try rcases he with rfl | rfl) <;> subst_vars <;>
+    exact ⟨2, by decide +kernel, by decide +kernel⟩
 
 end Sc3Verif.C14
